@@ -121,10 +121,8 @@ def _modes(wid):
     return out
 
 
-def _child(case, wid, wfd):
-    """Runs in the forked child; never returns."""
+def _child_one(case, wid):
     report = {'phases': []}
-    code = 0
     try:
         from cylc.flow.pathutil import get_workflow_run_dir
         for phase, um in (('first', case['first']),
@@ -152,9 +150,20 @@ def _child(case, wid, wfd):
     except BaseException as exc:   # noqa
         report['error'] = repr(exc)
         report['error_sig'] = exc_sig(exc)
+    os.umask(0o022)
+    return report
+
+
+def _child(batch, wfd):
+    """Runs in the forked child (the umask is process-wide, so it is never
+    changed in the worker itself); never returns."""
+    code = 0
     try:
-        os.umask(0o022)
-        os.write(wfd, json.dumps(report).encode())
+        reports = [_child_one(case, wid) for case, wid in batch]
+        data = json.dumps(reports).encode()
+        while data:
+            n = os.write(wfd, data)
+            data = data[n:]
     except BaseException:   # noqa
         code = 5
     os._exit(code)
@@ -179,20 +188,27 @@ def _preload():
     _preloaded = True
 
 
-def check_case(case, ctx: Ctx) -> CaseResult:
+def _wid(case):
+    return 'c44w%03o_%s' % (case['first'], (
+        '%03o' % case['restart']) if case['restart'] is not None else 'x')
+
+
+def _run_batch(cases):
+    """Run the cases in ONE forked child; return their reports."""
     from vf.cylcutil import reset_globals
     reset_globals()
     _preload()
-    wid = 'c44w%03o_%s' % (case['first'], (
-        '%03o' % case['restart']) if case['restart'] is not None else 'x')
-    top = os.path.join(os.path.expanduser('~'), 'cylc-run', wid)
-    shutil.rmtree(top, ignore_errors=True)
-    os.makedirs(os.path.dirname(top), exist_ok=True)
+    base = os.path.join(os.path.expanduser('~'), 'cylc-run')
+    os.makedirs(base, exist_ok=True)
+    batch = [(case, _wid(case)) for case in cases]
+    tops = [os.path.join(base, wid) for _, wid in batch]
+    for top in tops:
+        shutil.rmtree(top, ignore_errors=True)
     rfd, wfd = os.pipe()
     pid = os.fork()
     if pid == 0:
         os.close(rfd)
-        _child(case, wid, wfd)
+        _child(batch, wfd)
     os.close(wfd)
     chunks = []
     while True:
@@ -205,18 +221,21 @@ def check_case(case, ctx: Ctx) -> CaseResult:
     rc = os.waitstatus_to_exitcode(status)
     try:
         if rc != 0 or not chunks:
-            raise RuntimeError(f'C44 harness: child rc={rc} for {case}')
-        report = json.loads(b''.join(chunks))
-        return _judge(case, report)
+            raise RuntimeError(f'C44 harness: child rc={rc} for {cases[:2]}')
+        return json.loads(b''.join(chunks))
     finally:
-        # (root may be needed for odd modes; we are the owner)
-        for dirpath, dirnames, _ in os.walk(top):
-            for d in dirnames:
-                try:
-                    os.chmod(os.path.join(dirpath, d), 0o700)
-                except OSError:
-                    pass
-        shutil.rmtree(top, ignore_errors=True)
+        for top in tops:
+            for dirpath, dirnames, _ in os.walk(top):
+                for d in dirnames:
+                    try:
+                        os.chmod(os.path.join(dirpath, d), 0o700)
+                    except OSError:
+                        pass
+            shutil.rmtree(top, ignore_errors=True)
+
+
+def check_case(case, ctx: Ctx) -> CaseResult:
+    return _judge(case, _run_batch([case])[0])
 
 
 def _judge(case, report):
@@ -275,10 +294,11 @@ def run_shard(ctx: Ctx):
         step = len(cases) / max(budget, 1)
         cases = [cases[int(i * step)] for i in range(budget)]
         ctx.col.extra['reduced_budget'] = True
-    for i, case in enumerate(cases):
-        if i % ctx.nshards != ctx.shard:
-            continue
-        res = check_case(case, ctx)
-        ctx.col.record(case, res)
-        for v in ctx.col.filter_known(res.violations):
-            ctx.col.add_violation(v, case)
+    mine = [c for i, c in enumerate(cases) if i % ctx.nshards == ctx.shard]
+    for k in range(0, len(mine), 16):
+        chunk = mine[k:k + 16]
+        for case, report in zip(chunk, _run_batch(chunk)):
+            res = _judge(case, report)
+            ctx.col.record(case, res)
+            for v in ctx.col.filter_known(res.violations):
+                ctx.col.add_violation(v, case)
